@@ -4,6 +4,7 @@
   S*  seeded/         property-breaking     -> the targeted property's check must fire (exit 1)
   H*  selftest/Cxx/   hand-written mutants  -> the check of the mutant's property must fire
   V*  selftest/regress reverts of repairs   -> the listed properties' checks must fire
+  K*  selftest/stacked a refactoring + a break on top -> the check of the break's property must fire
 usage: devsuite.py [--build] [--only REGEX] [--props C01,C02] [-v]
 Trees are materialised under /tmp/thv-suite/<id>/ (--build refreshes them from /repo + patch)."""
 import glob, json, os, re, shutil, subprocess, sys
@@ -27,6 +28,14 @@ def variants():
         out.append(("H%s-%s" % (m["property"], os.path.basename(p)[:-6]), p, "fire", [m["property"]]))
     for e in json.load(open(os.path.join(VERIF, "selftest", "regress", "index.json"))):
         out.append(("V" + e["patch"][:-6], os.path.join(VERIF, "selftest", "regress", e["patch"]), "fire", e["props"]))
+    # mutants of REFACTORED trees (a refactoring from refactors/ with a property-breaking edit on top): the generalisation that made the
+    # refactoring silent must not have made the check blind
+    for d in sorted(glob.glob(os.path.join(VERIF, "selftest", "stacked", "*"))):
+        if not os.path.isdir(d):
+            continue
+        m = json.load(open(os.path.join(d, "meta.json")))
+        base = os.path.join(VERIF, "refactors", m["base"], "patch.diff")
+        out.append(("K" + os.path.basename(d), [base, os.path.join(d, "patch.diff")], "fire", [m["property"]]))
     return out
 
 def build(v):
@@ -35,9 +44,11 @@ def build(v):
     shutil.rmtree(d, ignore_errors=True)
     os.makedirs(d)
     subprocess.run(["rsync", "-a", "--exclude", "target", "--exclude", ".git", "/repo/", d + "/"], check=True)
-    r = subprocess.run(["patch", "-p1", "-s", "--no-backup-if-mismatch", "-i", patch], cwd=d, stdout=subprocess.PIPE, stderr=subprocess.STDOUT, text=True)
-    if r.returncode != 0:
-        open(os.path.join(d, "STALE"), "w").write(r.stdout)
+    for one in (patch if isinstance(patch, list) else [patch]):
+        r = subprocess.run(["patch", "-p1", "-s", "--no-backup-if-mismatch", "-i", one], cwd=d, stdout=subprocess.PIPE, stderr=subprocess.STDOUT, text=True)
+        if r.returncode != 0:
+            open(os.path.join(d, "STALE"), "w").write(r.stdout)
+            break
 
 def run(job):
     vid, prop = job
